@@ -662,6 +662,47 @@ pub open spec fn replay_fork(f0: u64, entries: Seq<Entry>, i: int) -> u64
     decreases i
 { if i <= 0 { f0 } else if entries[i - 1].tree_upgrade is Some { entries[i - 1].tree_upgrade->Some_0.fork } else { replay_fork(f0, entries, i - 1) } }
 
+impl HypercoreOptions {
+    /*@ fn src/core.rs HypercoreOptions::new
+    tags: C12
+    result: r
+    ensures:
+        r.key_pair is None, !r.open
+    @*/
+}
+/*@ item src/builder.rs struct HypercoreBuilder @*/
+impl HypercoreBuilder {
+    /*@ fn src/builder.rs HypercoreBuilder::new
+    tags: C12
+    result: r
+    ensures:
+        r.storage == storage, r.options.key_pair is None, !r.options.open
+    @*/
+    /*@ fn src/builder.rs HypercoreBuilder::key_pair ; mutself
+    tags: C12
+    result: r
+    ensures:
+        r.storage == self.storage, r.options.key_pair == Some(key_pair), r.options.open == self.options.open
+    @*/
+    /*@ fn src/builder.rs HypercoreBuilder::open ; mutself
+    tags: C12
+    result: r
+    ensures:
+        // C12: asking for open mode neither drops nor invents a key pair - a key pair supplied together with open mode has
+        // to reach Hypercore::new, which rejects the combination before the storage is touched
+        r.storage == self.storage, r.options.open == open, r.options.key_pair == self.options.key_pair
+    @*/
+    /*@ fn src/builder.rs HypercoreBuilder::build
+    tags: C12
+    result: r
+    requires:
+        !self.storage.failed@
+    ensures:
+        self.options.open && self.options.key_pair is Some ==> r is Err && r->Err_0 is BadArgument,
+        r is Ok ==> r->Ok_0.key_pair == r->Ok_0.header.key_pair
+    @*/
+}
+
 impl Hypercore {
     /*@ fn src/core.rs Hypercore::new ; noisolation
     tags: C01 C02 C03 C05 C10 C12 C13
